@@ -252,6 +252,23 @@ func c09(tier string, args []string) int {
 					mj := mi
 					mj.Data = []byte(`{"junk":true}`)
 					muts = append(muts, mutant{"renamed-to-opening-proposal:junk-payload", mj})
+					// the message under a signature that IS the sender's - of an earlier message of
+					// the same sender, which this very node process has verified before (a running
+					// node has verified everything before its position: whatever it remembers of
+					// that must not vouch for other bytes). The earlier message is handled first, on
+					// the state it was recorded in, so that the process has seen it.
+					for jj := j - 1; jj >= 0; jj-- {
+						e := rec.Log[jj]
+						if jj >= bs.K || e.SenderAddr != g.SenderAddr || len(e.Signature) == 0 || !addressed(rec, v, e) || string(e.Data) == string(g.Data) ||
+							e.Event == string(spf.EventInitProposal) || jj >= len(rec.Snaps[v]) {
+							continue
+						}
+						lab.Step(rec.Snaps[v][jj], e)
+						ms := g
+						ms.Signature = append([]byte(nil), e.Signature...)
+						muts = append(muts, mutant{"signature:of-an-earlier-verified-message-of-the-sender", ms})
+						break
+					}
 					for _, mu := range muts {
 						err, after, appended := lab.Step(bs.Snap, mu.Msg)
 						evals++
